@@ -244,6 +244,7 @@ func TestC06(t *testing.T) {
 		}
 		gen := vt.DefaultGen
 		gen.MaxList = 3
+		gen.HugeStr = 70000
 		for i := 0; i < nops && len(h.Ops) < 200+5*eff; i++ {
 			switch rapid.IntRange(0, 4).Draw(t, "op") {
 			case 0, 1:
